@@ -238,6 +238,12 @@ CVP_ROW_ENTRY((*B__p))
 CVP_ROW_LOOP1((*B__p))
 //@ head CovMat_cholDec_row 1
 CVP_ROW_HEAD1((*B__p))
+//@ at CovMat_cholDec_row elim_begin
+#ifdef CVP_OUTLINE
+CovMat_cholDec_elim(self, (*B__p), &p, N, W, row, k, n, pivot);
+#else
+//@ at CovMat_cholDec_row elim_end
+#endif
 //@ loop CovMat_cholDec_row 2
 CVP_ROW_LOOP2((*B__p))
 //@ pre CovMat_cholDec_row 3
@@ -248,6 +254,42 @@ CVP_ROW_LOOP3((*B__p))
 CVP_ROW_HEAD3((*B__p))
 //@ post CovMat_cholDec_row 3
 CVP_ROW_EXIT((*B__p))
+//@ end
+
+/* ------------------------------------------------------------------------------------------------------------------
+   CovMat_cholDec_elim: one pass of the loop `for (n=1; n<=k; n++)` inside the row pass (second level of OUTLINING: the
+   body of that loop is extracted as a block, header "for (n=1; n<=k; n++)", and cut out of CovMat_cholDec_row between
+   the injection points elim_begin / elim_end under -DCVP_OUTLINE).  Row row+n is updated with the multiple q of row
+   `row`; p + n is the diagonal element of row+n on entry and p + (n+1) that of row+n+1 on exit.  Working variables q, l
+   become locals; p is passed by reference; B, k, n, pivot are only read.                                            */
+//@ contract CovMat_cholDec_elim
+__CPROVER_requires(CVP_WF_COV(self) && N == self->base.row_ && W == self->band_ && 1 <= row && row <= N)
+__CPROVER_requires(k == CVP_STDMIN(W, N - row) && 1 <= n && n <= k)
+__CPROVER_requires(SAME(B, REP(self)) && OFF(B) == OFF(REP(self)) + FSZ * TAB(row))
+__CPROVER_requires(__CPROVER_rw_ok(p__p, sizeof(Float *)) && !SAME(p__p, self) && !SAME(p__p, REP(self)))
+__CPROVER_requires(SAME(*p__p, REP(self)) && OFF(*p__p) + FSZ * n == OFF(REP(self)) + FSZ * TAB(row + n) &&
+                   OFF(*p__p) >= OFF(B) + FSZ * k)
+__CPROVER_assigns(*p__p, __CPROVER_object_whole(REP(self)))
+__CPROVER_ensures(SAME(*p__p, REP(self)) && OFF(*p__p) + FSZ * (n + 1) == OFF(REP(self)) + FSZ * TAB(row + n + 1) &&
+                  OFF(*p__p) >= OFF(B) + FSZ * k)
+__CPROVER_ensures(MV_SAMEVAL(REP(self)[TAB(row)], __CPROVER_old(REP(self)[TAB(row)])))
+__CPROVER_ensures((1 <= gv_k0 && gv_k0 < row) ==> MV_SAMEVAL(REP(self)[TAB(gv_k0)], __CPROVER_old(REP(self)[TAB(gv_k0)])))
+//@ entry CovMat_cholDec_elim
+GV_CANARY("CovMat_cholDec_elim entry");
+Float q;                  /* working variables of the pass (declared at the top of cholDec, assigned before they are read) */
+Index l;
+CVP_USE_STEP(N, W, row);
+CVP_USE_STEP(N, W, row + n);
+if (1 <= gv_k0 && gv_k0 <= row) CVP_USE_MONO(N, W, gv_k0, row);
+const Float gv_v0 = (1 <= gv_k0 && gv_k0 < row) ? REP(self)[TAB(gv_k0)] : 0;
+const Float gv_p0 = REP(self)[TAB(row)];
+GV_ANCHOR((*p__p), REP(self) + (TAB(row + n) - n));
+//@ loop CovMat_cholDec_elim 1
+__CPROVER_assigns(l, __CPROVER_object_whole(REP(self)))
+__CPROVER_loop_invariant(n <= l && l <= k + 1 &&
+                         ((1 <= gv_k0 && gv_k0 < row) ==> MV_SAMEVAL(REP(self)[TAB(gv_k0)], gv_v0)) &&
+                         MV_SAMEVAL(REP(self)[TAB(row)], gv_p0))
+__CPROVER_decreases((long)k + 1 - l)
 //@ end
 
 //@ harness
@@ -277,5 +319,22 @@ void h_covmat_cholDec_row(void)
   Float w_tol = Tol;
   CovMat_cholDec_row(&A, &B, A.base.row_, A.band_, row, Tol);
   GV_CANARY("h_covmat_cholDec_row end");
+}
+
+void h_covmat_cholDec_elim(void)
+{
+  struct CovMat A;
+  mk_cov(&A);
+  Index row, k0, k, n;
+  Float pivot;
+  __CPROVER_assume(1 <= row && row <= A.base.row_);
+  __CPROVER_assume(k == CVP_STDMIN(A.band_, A.base.row_ - row) && 1 <= n && n <= k);
+  gv_k0 = k0;
+  gv_exc = 0;
+  Float *B = REP(&A) + TAB(row);
+  Float *p = REP(&A) + (TAB(row + n) - n);
+  __CPROVER_assume(TAB(row + n) - n >= TAB(row) + k);     /* the caller's loop invariant: OFF(p) >= OFF(B) + FSZ*k */
+  CovMat_cholDec_elim(&A, B, &p, A.base.row_, A.band_, row, k, n, pivot);
+  GV_CANARY("h_covmat_cholDec_elim end");
 }
 //@ end
